@@ -205,9 +205,17 @@ class ArffLineReader(Filter[str, Sequence[str]]):
             dialect['quotechar'] = "'"
             self._quotechar      = "'"
 
-        if len(next(csv.reader([line], **dialect, delimiter=","))) == self._n_columns:
+        by_comma = next(csv.reader([line], **dialect, delimiter=","))
+        by_tab   = next(csv.reader([line], **dialect, delimiter='\t'))
+
+        #a tab delimited line with commas inside a quoted value can have the right number of pieces when it is
+        #split on commas (1<TAB>2<TAB>'a,b,c'), so a comma split whose pieces contain tabs yields to a tab split that fits.
+        comma_fits = len(by_comma) == self._n_columns
+        tab_fits   = len(by_tab)   == self._n_columns
+
+        if comma_fits and not (tab_fits and any('\t' in v for v in by_comma)):
             dialect['delimiter'] = ','
-        elif len(next(csv.reader([line], **dialect, delimiter='\t'))) == self._n_columns:
+        elif tab_fits:
             dialect['delimiter'] = '\t'
         else:
             self._set_filter(self._dense_advanced)
